@@ -321,6 +321,33 @@ theorem allMulti_is_serial_layout (shape : List Nat) (k : Nat) (hk : k < prod sh
 
 example : (allMulti [2, 3])[4]? = some [1, 1] ∧ multiFromSerial [2, 3] 4 = some [1, 1] := by decide
 
+/-- C16.f (entries) entry `t` of the raw marginal, in terms of SERIAL indices of the joint tensor: it is the sum of the joint entries `ps[s]`
+over those serial positions `s` whose multi-index (index map of C16.a) projects onto the `t`-th multi-index of the retained variables -/
+theorem marginalRaw_entry_serial (ps : List Rat) (shape keep : List Nat) (hlen : ps.length = prod shape) (t : Nat) :
+    (marginalRaw ps shape keep).2[t]? = ((allMulti (project shape keep))[t]?).map fun o =>
+      rsum ((List.range (prod shape)).filterMap fun s =>
+        match multiFromSerial shape s, ps[s]? with
+        | some mi, some p => if project mi keep = o then some p else none
+        | _, _ => none) := by
+  unfold marginalRaw
+  simp only [List.getElem?_map]
+  congr 1
+  funext o
+  congr 1
+  rw [zip_eq_range_map _ _ (by rw [allMulti_length, hlen]), List.filterMap_filterMap, allMulti_length]
+  apply filterMap_congr'
+  intro s hs
+  have hs' : s < prod shape := by simpa using hs
+  rw [(allMulti_is_serial_layout shape s hs').1]
+  cases hm : multiFromSerial shape s with
+  | none => simp
+  | some mi =>
+    cases hp : ps[s]? with
+    | none => simp
+    | some p => simp
+
+example : (marginalRaw [1/8, 1/8, 1/4, 1/2] [2, 2] [1]).2[1]? = some (1/8 + 1/2) := by decide +kernel
+
 /-! ## what the constructor stores -/
 
 /-- C16.e (entries) a successfully constructed distribution stores the thresholded entries — unchanged when nothing was below the
